@@ -16,7 +16,7 @@ def run(ctx):
     thorough = ctx.tier == "thorough"
     for config in ("stable", "nightly"):
         rows = exprun.select(facts, config)
-        cases_a, meta = exprun.gen_cases(ctx, rows, lambda L: CONST_DIMS, ("random", "boundary", "special") if thorough else ("random", "special"),
+        cases_a, meta = exprun.gen_cases(ctx, rows, lambda L: CONST_DIMS, ("random", "boundary", "special", "specialnan") if thorough else ("random", "special", "specialnan"),
                                          places=("R",), forms=("a",), seed_tag=12)
         cases_c = []
         for c, m in zip(cases_a, meta):
@@ -38,7 +38,11 @@ def run(ctx):
             if xc is not None and xc.startswith("error no-such-routine"):
                 ctx.broke("correspondence", "C12 glue: %s::<%d> not instantiated" % (e["xconst"], n), cc[:200])
                 continue
-            if not exprun.lines_agree(xc, xa, e, config, n):
+            # the property's words: BIT-identical (signed zeros and NaN positions included); only the nightly build's float
+            # reductions / divisions (FastMath: algebraic operations the optimiser may reassociate per instantiation) are held
+            # to the tolerance of lines_agree
+            strict = config != "nightly" or e["ty"][0] != "f" or e["op"] in exprun.MINMAX
+            if (xc != xa) if strict else (not exprun.lines_agree(xc, xa, e, config, n)):
                 bad += 1
                 ctx.violation("const-any:%s" % e["xconst"],
                               "%s::<%d> and %s disagree on the same data (%s build)" % (e["xconst"], n, e["xany"], config),
@@ -100,7 +104,11 @@ def run(ctx):
             e = {"op": "generic_max_vertical" if ("max" in s["any"] or "min" in s["any"]) else
                  ("generic_div_value" if "div" in s["any"] else ("generic_sum" if s["macro"] in ("export_safe_distance_op", "export_safe_fma_norm_op", "export_safe_horizontal_op") else "x")),
                  "ty": s["ty"]}
-            if not exprun.lines_agree(xc, xa, e, config, n):
+            # the property's words: BIT-identical (signed zeros and NaN positions included); only the nightly build's float
+            # reductions / divisions (FastMath: algebraic operations the optimiser may reassociate per instantiation) are held
+            # to the tolerance of lines_agree
+            strict = config != "nightly" or e["ty"][0] != "f" or e["op"] in exprun.MINMAX
+            if (xc != xa) if strict else (not exprun.lines_agree(xc, xa, e, config, n)):
                 bad += 1
                 ctx.violation("safe-const-any:%s" % s["const"],
                               "safe %s::<%d> and %s disagree on the same data (mask %d, %s build)" % (s["const"], n, s["any"], mask, config),
